@@ -26,7 +26,27 @@ fn bypass(host: &str, entries: &[String]) -> bool {
 
 fn pfor_case(sink: &mut Sink, host: &str, scheme: &str, entries: &[String], tagset: Vec<String>) {
     let url = Url::parse(&format!("{}://{}/p", scheme, host)).unwrap();
-    let mut pb = attohttpc::ProxySettings::builder().http_proxy(Url::parse(PROXY_H).ok()).https_proxy(Url::parse(PROXY_S).ok());
+    // a configuration written with a builder is that configuration and nothing else, however the builder was
+    // obtained (`ProxySettings::builder()`, `ProxySettingsBuilder::new()`, `::default()`) and whatever the
+    // environment holds at that moment (seed C11-seed12: the derived Default of the builder starts from the
+    // environment's settings: NO_PROXY=* disables everything, its entries exempt hosts nobody listed)
+    static WAY: std::sync::atomic::AtomicUsize = std::sync::atomic::AtomicUsize::new(0);
+    let way = WAY.fetch_add(1, std::sync::atomic::Ordering::Relaxed);
+    let env_set = way % 2 == 0;
+    if env_set {
+        std::env::set_var("NO_PROXY", if way % 4 == 0 { "*" } else { "b, a.b, other, localhost" });
+        std::env::set_var("ALL_PROXY", "http://env-all.test:1");
+    }
+    let start = match way % 3 {
+        0 => attohttpc::ProxySettingsBuilder::default(),
+        1 => attohttpc::ProxySettingsBuilder::new(),
+        _ => attohttpc::ProxySettings::builder(),
+    };
+    if env_set {
+        std::env::remove_var("NO_PROXY");
+        std::env::remove_var("ALL_PROXY");
+    }
+    let mut pb = start.http_proxy(Url::parse(PROXY_H).ok()).https_proxy(Url::parse(PROXY_S).ok());
     for e in entries {
         pb = pb.add_no_proxy_host(e);
     }
